@@ -46,7 +46,15 @@ def workloads(rng, tier):
     # the io_uring side closes while its peer is still sending: the receive buffers the kernel held come back (more rounds than buffers)
     out.append(["!rchurn uring=1,ms=0 %d" % (40 if tier == "quick" else 300)])
     out.append(["!rchurn uring=1 %d" % (24 if tier == "quick" else 300)])
-    out.append(["slowdrip type=PULL,hsivl=600,uring=1 300 hff00000000000000017f03"])   # known finding: no handshake deadline
+    out.append(["slowdrip type=PULL,hsivl=600,uring=1 300 hff00000000000000017f03"])   # the handshake deadline is enforced (repaired defect)
+    # the handler closes the connection when it has to, and the peer notices: protocol errors, a silent peer with heartbeats
+    # configured (a PING first), the application closing an idle connection
+    hs = b"".join(b for _, b in C07.E.peer_handshake(rng, {"role": "s", "type": "PULL"}, peer_type="PUSH"))
+    for ms in ("", ",ms=1"):
+        out.append(["errclose role=s,type=PULL,uring=1%s %s" % (ms, C07.E.hexspec(bytes(range(1, 13)) * 6))])
+        out.append(["errclose role=s,type=PULL,max=1000,uring=1%s %s" % (ms, C07.E.hexspec(hs + bytes([2]) + (5000).to_bytes(8, "big") + b"xx"))])
+        out.append(["errclose role=s,type=PULL,hbivl=150,hbto=400,uring=1%s %s idle" % (ms, C07.E.hexspec(hs))])
+        out.append(["errclose role=s,type=PULL,uring=1%s %s appclose" % (ms, C07.E.hexspec(hs))])
     return out
 
 
@@ -177,7 +185,7 @@ def mk_components():
               "nontrivial": lambda c, i: any(l.isdigit() for l in i), "dist": lambda cs: {"cases": len(cs), "ops": sum(len(c) for c in cs)}}]
     for name, env in URING_ENVS:
         comps.append({"comp": "stack", "gen": workloads, "label": "uring-" + name, "shrink": False, "env": env,
-                      "nontrivial": lambda c, i: any(l.startswith(("delivered=", "hwm=ok", "churn=ok", "fanin=ok", "fanin=intact", "peerclose=seen", "rchurn=ok", "survived=ok")) for l in i),
+                      "nontrivial": lambda c, i: any(l.startswith(("delivered=", "hwm=ok", "churn=ok", "fanin=ok", "fanin=intact", "peerclose=seen", "rchurn=ok", "survived=ok", "errclose=closed", "closed=in-time")) for l in i),
                       "dist": lambda cs: {"cases": len(cs), "streams": sum(1 for c in cs if c[0].startswith("stream")),
                                           "hwm": sum(1 for c in cs if c[0].startswith("hwm")),
                                           "churn/fanin": sum(1 for c in cs if c[0].lstrip("!").startswith(("churn", "fanin")))}})
